@@ -1,4 +1,4 @@
-from . import check_combo, check_errors, check_establish, check_h2, check_framing, check_pool, check_reqwire, check_syncasync, check_upgrade, check_url
+from . import check_combo, check_errors, check_establish, check_h2, check_framing, check_pool, check_reqwire, check_syncasync, check_threads, check_upgrade, check_url
 
 REGISTRY = {
     "C01": check_combo,
@@ -8,6 +8,7 @@ REGISTRY = {
     "C05": check_pool,
     "C06": check_pool,
     "C07": check_pool,
+    "C08": check_threads,
     "C09": check_pool,
     "C10": check_combo,
     "C11": check_establish,
